@@ -210,12 +210,26 @@ int process_tarball(sqfs_dir_iterator_t *it, sqfs_writer_t *sqfs)
 			if (link != NULL &&
 			    ((ent->flags & SQFS_DIR_ENTRY_FLAG_HARD_LINK) ||
 			     !no_symlink_retarget)) {
-				if (canonicalize_name(link) == 0 &&
-				    !strncmp(link, root_becomes, rootlen) &&
-				    link[rootlen] == '/') {
-					memmove(link, link + rootlen,
-						strlen(link + rootlen) + 1);
+				/*
+				  Test a canonicalized copy. The target itself
+				  is only touched if it is below the new root.
+				 */
+				char *copy = strdup(link);
+
+				if (copy == NULL) {
+					perror(ent->name);
+					free(ent);
+					free(link);
+					return -1;
 				}
+
+				if (canonicalize_name(copy) == 0 &&
+				    !strncmp(copy, root_becomes, rootlen) &&
+				    copy[rootlen] == '/') {
+					strcpy(link, copy + rootlen);
+				}
+
+				free(copy);
 			}
 		} else if (ent->name[0] == '\0') {
 			is_root = true;
